@@ -424,6 +424,8 @@ type ctx struct {
 	hung     bool
 	unhooked int // decodes whose scanner's split function could not be wrapped
 	judged   int // split calls of real Decoders held against the contract
+	sessions int
+	recent   []string // the last session lines (state left behind by a session may matter to the next)
 }
 
 func decLine(doc []byte, got []int, s sched) string {
@@ -831,6 +833,10 @@ func Run(r *common.Run) error {
 					}
 					c.splitDoc(doc, s, lim)
 				}
+			case "sess":
+				if decs, ops, ok := parseSess(f); ok {
+					c.session(decs, replayScript(ops), "replay")
+				}
 			case "hist":
 				if len(f) < 4 {
 					continue
@@ -865,6 +871,10 @@ func Run(r *common.Run) error {
 	}
 	c.longDocs()
 	c.longProbes()
+
+	// 1b. sessions: several decoders alive at once and used alternately, calls after the end,
+	// SkipSpan/SkipBlock (session.go)
+	c.sessions_()
 
 	// 2. small scope, exhaustive: every document up to length L over the directive alphabet
 	// under every way of cutting it into reads, with and without EOF on the last read
@@ -1178,6 +1188,18 @@ func Facts(repo string) (string, error) {
 		sb.WriteString("def decoderLimit : Option (Option Nat) := some none\n")
 	default:
 		fmt.Fprintf(&sb, "def decoderLimit : Option (Option Nat) := some (some %d)\n", n)
+	}
+	fmt.Fprintf(&sb, "\n/-- the derived masks SkipSpan/SkipBlock test: StartDirective, EndDirective, BlockStartDirective, BlockEndDirective -/\ndef directiveMasks : Option (List Nat) := some [%d, %d, %d, %d]\n",
+		uint32(styling.StartDirective), uint32(styling.EndDirective), uint32(styling.BlockStartDirective), uint32(styling.BlockEndDirective))
+	sb.WriteString("\n/-- package level variables of package styling that the decoder's code uses and that are not\nread-only (assigned, address taken, method called on it, handed to a function that is not a pure\nstandard library predicate, aliased): state shared by all decoders of the process.\n`none` = the package could not be analysed -/\n")
+	if names, ok := SharedState(repo); ok {
+		q := make([]string, len(names))
+		for i, n := range names {
+			q[i] = strconv.Quote(n)
+		}
+		fmt.Fprintf(&sb, "def sharedState : Option (List String) := some [%s]\n", strings.Join(q, ", "))
+	} else {
+		sb.WriteString("def sharedState : Option (List String) := none\n")
 	}
 	sb.WriteString("\nend XmppModel.Generated.C17\n")
 	return sb.String(), nil
